@@ -255,6 +255,37 @@ void search(void) {
 '''
 
 
+def concretise_oracles(pk, ky, vals):
+    """The search treats HMAC-SHA1 / CRC-32 as oracles with arbitrary outputs.  For the native replay the oracle outputs are
+    replaced by the real values: every MESSAGE-INTEGRITY / FINGERPRINT byte that agreed with the oracle in the counterexample
+    gets the real byte, every byte that disagreed gets a byte that really disagrees."""
+    import hmac, hashlib, zlib
+    n = len(pk)
+    if vals.get('gh_saw_mi') and ky:
+        off = 20 + vals.get('gh_mi_done', 0)
+        if off + 4 <= n:
+            prefix = bytearray(pk[:off])
+            plen = (off - 20 + 24) & 0xffff
+            prefix[2:4] = bytes([plen >> 8, plen & 0xff])
+            real = hmac.new(ky, bytes(prefix), hashlib.sha1).digest()
+            hout = vals.get('gh_hmac_out', {})
+            for j in range(20):
+                if off + 4 + j < n:
+                    pk[off + 4 + j] = real[j] if pk[off + 4 + j] == hout.get(j, -1) else (real[j] ^ 0xff)
+    if vals.get('gh_saw_fp'):
+        off = 20 + vals.get('gh_fp_done', 0)
+        if off + 8 <= n:
+            prefix = bytearray(pk[:off])
+            plen = (off - 20 + 8) & 0xffff
+            prefix[2:4] = bytes([plen >> 8, plen & 0xff])
+            real = (zlib.crc32(bytes(prefix)) & 0xffffffff) ^ 0x5354554e
+            model = (vals.get('gh_crc_out', 0) ^ 0x5354554e) & 0xffffffff
+            got = int.from_bytes(pk[off + 4:off + 8], 'big')
+            new = real if got == model else (real ^ 0xffffffff)
+            pk[off + 4:off + 8] = new.to_bytes(4, 'big')
+    return pk
+
+
 def search_decode(work):
     """returns (packet hex, key hex, failed label) or None"""
     import json, subprocess, re
@@ -301,10 +332,20 @@ def search_decode(work):
                                 vals.setdefault(lhs, {})[int(e['index'])] = int(e['value']['binary'], 2) & 0xff
                             except Exception:
                                 pass
-                    elif lhs in ('pkt_n', 'key_n') and 'data' in v:
+                    elif lhs in ('pkt_n', 'key_n', 'gh_mi_done', 'gh_fp_done') and 'data' in v:
                         vals[lhs] = int(v['data'])
+                    elif lhs in ('gh_saw_mi', 'gh_saw_fp', 'gh_mi_complete') and 'data' in v:
+                        vals[lhs] = v['data'] == 'TRUE'
+                    elif lhs == 'gh_crc_out' and 'binary' in v:
+                        vals[lhs] = int(v['binary'], 2)
+                    elif lhs == 'gh_hmac_out' and v.get('elements'):
+                        for e in v['elements']:
+                            vals.setdefault(lhs, {})[int(e['index'])] = int(e['value']['binary'], 2) & 0xff
+                    elif re.fullmatch(r'gh_hmac_out\[(\d+)l?\]', lhs) and 'binary' in v:
+                        vals.setdefault('gh_hmac_out', {})[int(re.findall(r'\d+', lhs)[0])] = int(v['binary'], 2) & 0xff
                 n, kn = vals.get('pkt_n', 0), vals.get('key_n', 0)
-                pk = bytes(vals.get('pkt', {}).get(i, 0) for i in range(n))
+                pk = bytearray(vals.get('pkt', {}).get(i, 0) for i in range(n))
                 ky = bytes(vals.get('keyb', {}).get(i, 0) for i in range(kn))
-                return {'packet_hex': pk.hex(), 'key_hex': ky.hex(), 'search_obligation': r.get('description')}
+                pk = concretise_oracles(pk, ky, vals)
+                return {'packet_hex': bytes(pk).hex(), 'key_hex': ky.hex(), 'search_obligation': r.get('description')}
     return None
